@@ -75,7 +75,10 @@ class ExprMixin:
         return out
 
     def exc(self, st, cls):
-        return [Flow('exc', st, cls)]
+        s2 = st.copy()
+        s2.ghost = dict(st.ghost)
+        s2.ghost['exc_line'] = getattr(self, 'cur_line', None)      # where the exception arises (for reports only)
+        return [Flow('exc', s2, cls)]
 
     def val(self, st, v):
         return [(st, v)]
